@@ -334,6 +334,9 @@ class Kernel:
                 fault = None
                 for f in self.send_faults:
                     if f["proc"] == p.name and f["count"] > 0 and f.get("dst_port") in (None, port):
+                        if f.get("skip", 0) > 0:
+                            f["skip"] -= 1       # (fail the n-th matching send from now, not the next one)
+                            continue
                         fault = f
                         break
                 if fault is not None:
